@@ -35,6 +35,8 @@ func execJob(job *Job) (res Result) {
 		return runScenario(job)
 	case "free":
 		return runFree(job)
+	case "burst":
+		return runBurst(job)
 	}
 	return Result{ID: job.ID, Kind: job.Kind, Err: "unknown job kind"}
 }
